@@ -74,12 +74,19 @@ def kstate : P KState := do
   let ko ← rep nl (do
     let cnt ← num
     rep cnt (do let y ← num; let m ← num; let outs ← rep m num; pure (y, outs)))
+  expect "OVR"; let novr ← num
+  let ovrRaw ← rep novr (do
+    expect "I"; let ni ← num; let i ← rep ni num
+    expect "O"; let no ← num; let o ← rep no num
+    pure (i, o))
+  -- `Override::try_new` on every pair (a pair the real parser accepted cannot fail here), then `Overrides::new`
+  let ovrs := ovrRaw.filterMap fun (i, o) => match Override.Override.tryNew i o with | .ok x => some x | .error _ => none
   expect "OPT"; expect "roa"; let roa ← num; expect "smd"; let smd ← num; expect "smkt"; let smkt ← num
   expect "NOKEY"; let nokey ← num
   expect "MODS"; let mods ← rep 8 num
   expect "BTNS"; let btns ← rep 5 (do let c ← num; let b ← num; pure (c, b))
   expect "WH"; let wh ← rep 4 (do let c ← num; let d ← num; pure (c, d))
-  return { layout := l, customs, keyOutputs := ko, overrideReleaseOnActivation := roa == 1,
+  return { layout := l, customs, keyOutputs := ko, overrides := Override.Overrides.new ovrs, overrideReleaseOnActivation := roa == 1,
            smoothDiagonals := smd == 1, switchMaxKeyTiming := smkt, lastPressedKey := nokey,
            mods := { codes := mods, lsft := mods[0]!, rsft := mods[1]! }, btnCodes := btns, wheelCodes := wh }
 
